@@ -118,4 +118,38 @@ def strip : List Ev2 → List Ev
   | .ev e :: r => e :: strip r
   | .request _ _ :: r => strip r
 
+/-! ### several physical devices on one write queue
+
+Every `PhysicalDevice` keeps its own `_frame_versions` and `data`, and all devices of a connection
+put their frames on the protocol's ONE write queue.  A refresh is built by
+`Request.create(frame_type, recipient=self.address)`: it is addressed to the device whose
+announcement is being handled. -/
+
+structure Frame where
+  kind : Nat
+  recipient : Nat
+  deriving DecidableEq, Repr
+
+/-- the request frames behind the queued kinds of a device with address `addr` -/
+def Res.frames (addr : Nat) (r : Res) : List Frame := r.queued.map (⟨·, addr⟩)
+
+/-- the devices of a connection, by address -/
+abbrev Sys := Nat → St
+
+/-- an event at the device with address `a`: only that device's state moves; what it queues goes
+to the shared queue, addressed to `a` -/
+def sysStep (sys : Sys) (a : Nat) (e : Ev2) : Sys × List Frame :=
+  (fun b => if b = a then (step2 (sys a) e).st else sys b, (step2 (sys a) e).frames a)
+
+def sysRun : Sys → List (Nat × Ev2) → List (List Frame)
+  | _, [] => []
+  | sys, (a, e) :: r => (sysStep sys a e).2 :: sysRun (sysStep sys a e).1 r
+
+def sysFinal : Sys → List (Nat × Ev2) → Sys
+  | sys, [] => sys
+  | sys, (a, e) :: r => sysFinal (sysStep sys a e).1 r
+
+/-- the events of one device, in order -/
+def eventsOf (b : Nat) (evs : List (Nat × Ev2)) : List Ev2 := (evs.filter (·.1 == b)).map (·.2)
+
 end PlumVerif.C15
